@@ -211,6 +211,9 @@ func genLoop(family string, seed uint64, tier string, o loopOpts) *world.Scenari
 			if r.Bool(0.2) {
 				f.Plant.NoRpm = true
 			}
+			if kind == "file" && !f.Plant.NoRpm && kernel.NewRand(seed, "loop.homerpm."+f.ID).Bool(0.3) {
+				f.HomeRelRpm = true // rpmPath: ~/... (the tachometer file lives below the user's home directory)
+			}
 		} else if r.Bool(0.15) {
 			f.Driver.NoEnable = true
 		}
@@ -421,18 +424,20 @@ type loopFan struct {
 	floorMax     int // highest GetMinPwm seen
 	raises       int
 	// C10
-	zeroSince   int // rpm polls with 0 since the current stall episode began (-1: not stalled)
-	pollsAtZero int
-	lastReq     int
-	reqStable   bool
-	stalledErr  bool
-	identity    bool
-	polls       int
-	lastRaiseAt int
-	episode     bool
-	restored    bool
-	atMaxZero   int // RPM polls at 0 while the request sits at the maximum
-	maxReported bool
+	zeroSince           int // rpm polls with 0 since the current stall episode began (-1: not stalled)
+	pollsAtZero         int
+	lastReq             int
+	reqStable           bool
+	stalledErr          bool
+	identity            bool
+	polls               int
+	lastRaiseAt         int
+	episode             bool
+	restored            bool
+	atMaxZero           int // RPM polls at 0 while the request sits at the maximum
+	maxReported         bool
+	pollAttempts        int           // RPM polls of any outcome
+	firstCycT, lastCycT time.Duration // first and last regulation cycle
 }
 
 func newLoopOracle(st *stage.Stage, res *check.Result, props ...string) *loopOracle {
@@ -516,6 +521,10 @@ func (o *loopOracle) onCycle(c *Cycle) {
 		return
 	}
 	lf.cycles++
+	if lf.cycles == 1 {
+		lf.firstCycT = c.EndT
+	}
+	lf.lastCycT = c.EndT
 	res := o.res
 	if lf.cycles == 1 && lf.spec.Kind == "hwmon" && seededCurve(o.st.Sc, c.Fan) == nil {
 		res.Probe("first-start-fans-regulating(no stored RPM curve)")
@@ -705,6 +714,9 @@ func (o *loopOracle) OnEvent(ev *kernel.Event) {
 		return
 	}
 	lf := o.fans[fan]
+	if lf != nil {
+		lf.pollAttempts++
+	}
 	if lf == nil || !lf.spec.NeverStop || !ok {
 		return
 	}
@@ -765,6 +777,30 @@ func (o *loopOracle) Finish(st *stage.Stage, res *check.Result) {
 		for id, lf := range o.fans {
 			if !lf.spec.NeverStop {
 				continue
+			}
+			// a fan with a tachometer whose rotor was blocked for many RPM polling periods while it was being
+			// regulated, and whose tachometer fan2go never polled at all: no number of polls bounds that stall
+			if fs := st.W.Fans[id]; fs != nil && fs.RpmPath != "" && lf.pollAttempts == 0 && lf.cycles >= 10 {
+				blocked := time.Duration(0)
+				for _, iv := range lf.spec.Plant.Stalls {
+					from, to := iv.From.D(), iv.To.D()
+					if to == 0 || to > lf.lastCycT {
+						to = lf.lastCycT
+					}
+					if from < lf.firstCycT {
+						from = lf.firstCycT
+					}
+					if to > from {
+						blocked += to - from
+					}
+				}
+				if lf.spec.Plant.NeverSpin {
+					blocked = lf.lastCycT - lf.firstCycT
+				}
+				if need := 10*st.Sc.RpmPoll.D() + 10*time.Second; blocked > need {
+					res.Violate("C10", "raise-within-bound", "raise-within-bound never-polled fan="+lf.spec.Kind, 0, nil,
+						"fan %s has a tachometer (%s) and its rotor was blocked for %s of its regulation (rpmPollingRate %s), yet fan2go never read the tachometer: the stall can not be noticed", id, fs.RpmPath, blocked, st.Sc.RpmPoll.D())
+				}
 			}
 			// a fan stalled at its maximum: the controller must have reported and stopped
 			if lf.restored {
